@@ -59,6 +59,8 @@ def gen_body(rng, depth, in_ns=False, allow_draw=False):
                 st["rev"] = True
             if rng.random() < 0.2:
                 st["unroll"] = 2
+            if rng.random() < 0.4:
+                st["cl"] = True  # the body closes over a per-call value of the enclosing scope
         else:
             st = {"k": k, "n": rng.randint(1, 3), "body": gen_body(rng, depth - 1, in_ns, allow_draw and k == "mvmap")}
         out.append(st)
@@ -69,7 +71,9 @@ def gen_case(rng, tier):
     cfg = rng.choice(["eager", "eager", "jit", "seed", "state_of_seed", "jit_seed"])
     body = gen_body(rng, rng.choice([1, 2, 2] if tier == "quick" else [2, 2, 3]), False, cfg in ("seed", "state_of_seed", "jit_seed"))
     _number(body, [0])
-    return {"body": body, "cfg": cfg, "x": round(rng.uniform(-1, 1), 3), "key": rng.randint(0, 2**30)}
+    # the same wrapped function object is called a second time with another argument (history)
+    return {"body": body, "cfg": cfg, "x": round(rng.uniform(-1, 1), 3), "key": rng.randint(0, 2**30),
+            "x2": round(rng.uniform(-1, 1), 3) if rng.random() < 0.5 else None}
 
 
 def _number(body, ctr):
@@ -134,8 +138,10 @@ def build(body):
                 acc, o = inner(acc)
                 outs.update(o)
             elif k == "scan":
-                def step(c, x, _b=st["body"]):
-                    c2, o = run(_b, c + x)
+                outer = acc * 0.25 if st.get("cl") else 0.0
+
+                def step(c, x, _b=st["body"], _outer=outer):
+                    c2, o = run(_b, c + x + _outer)
                     return c2, o
 
                 acc, o = jax.lax.scan(step, acc, 0.1 * jnp.arange(st["n"], dtype=jnp.float32),
@@ -254,31 +260,36 @@ def run_case(case):
     sig = dict(cfg=cfg)
     try:
         key = jax.random.key(case["key"])
+        # one wrapped object per configuration, reused for every call of the history
+        sf = state(f)
         if cfg == "eager":
-            plain = f(x)
-            res, st = state(f)(x)
+            run_plain, run_state = f, sf
         elif cfg == "jit":
-            plain = jax.jit(f)(x)
-            res, st = jax.jit(state(f))(x)
+            run_plain, run_state = jax.jit(f), jax.jit(sf)
         elif cfg == "seed":
-            plain = gpjax.seed(f)(key, x)
-            res, st = gpjax.seed(state(f))(key, x)
+            run_plain, run_state = (lambda v: gpjax.seed(f)(key, v)), (lambda v, _s=gpjax.seed(sf): _s(key, v))
         elif cfg == "jit_seed":
-            plain = jax.jit(gpjax.seed(f))(key, x)
-            res, st = jax.jit(gpjax.seed(state(f)))(key, x)
+            run_plain, run_state = (lambda v, _p=jax.jit(gpjax.seed(f)): _p(key, v)), (lambda v, _s=jax.jit(gpjax.seed(sf)): _s(key, v))
         else:
-            plain = gpjax.seed(f)(key, x)
-            res, st = state(lambda v: gpjax.seed(f)(key, v))(x)
-        # staged evaluation can fuse differently from eager op-by-op dispatch: cross-transformation
-        # tolerance (rtol 1e-5); integer / boolean leaves exact
-        if not world.tree_close(plain, res)[0]:
-            viol.append(V("not_transparent", "state_does_not_change_result",
-                          "state(f)(x)[0] differs from f(x)", **sig))
-        else:
+            run_plain, run_state = (lambda v: gpjax.seed(f)(key, v)), state(lambda v: gpjax.seed(f)(key, v))
+        xs = [x] + ([case["x2"]] if case.get("x2") is not None else [])
+        for call, xv in enumerate(xs):
+            if call:
+                probes["second_call_same_object"] = 1
+            plain = run_plain(xv)
+            res, st = run_state(xv)
+            # staged evaluation can fuse differently from eager op-by-op dispatch: cross-transformation
+            # tolerance (rtol 1e-5); integer / boolean leaves exact
+            tag = "" if not call else " (second call of the same wrapped object, other argument)"
+            if not world.tree_close(plain, res)[0]:
+                viol.append(V("not_transparent", "state_does_not_change_result",
+                              "state(f)(x)[0] differs from f(x)" + tag, **sig))
+                break
             exp = expected(body, res[1])
             msg = same_tree(st, exp)
             if msg:
-                viol.append(V("wrong_collection", "collects_exactly_what_was_saved", msg, **sig))
+                viol.append(V("wrong_collection", "collects_exactly_what_was_saved", msg + tag, **sig))
+                break
     except Exception as e:
         viol.append(exc_violation(e, "state", **sig))
     return {"violations": viol, "steps": 1, "probes": probes, "faults": {}, "evals": 1,
@@ -320,7 +331,7 @@ def shrink(case):
                     b = copy.deepcopy(body)
                     b[i]["n"] -= 1
                     yield b
-                for kk in ("rev", "unroll"):
+                for kk in ("rev", "unroll", "cl"):
                     if kk in st:
                         b = copy.deepcopy(body)
                         del b[i][kk]
@@ -330,6 +341,10 @@ def shrink(case):
                 b[i]["names"] = st["names"][:1]
                 yield b
 
+    if case.get("x2") is not None:
+        c = copy.deepcopy(case)
+        c["x2"] = None
+        yield c
     for b in sb(case["body"]):
         if b:
             c = copy.deepcopy(case)
